@@ -23,4 +23,10 @@ def run(ctx):
         "the event loop or the height poller) or cancelled while healthy, and started again on the SAME Watcher value with fresh "
         "channels as Watcher.Run does (events appended while down, a restart that fails at once, up to 3 restarts in a random walk); "
         "everything forwarded by all incarnations is judged per position of the governance contract's event log "
-        "(poll-forwarded-twice, shared with C09); meta: see C09")
+        "(poll-forwarded-twice, shared with C09); meta: see C09"
+        "; shipped configurations: about a third of all lives / re-observation cases run a Watcher built by NewAlephiumWatcher from "
+        "configs/alephium/{mainnet,testnet,devnet}.json as read by common.ReadConfigsByNetwork (isMainnet = network == mainnet, the call "
+        "node.go makes; `ctor=` in the line, named in the floor verdicts), conf / dur also after a constructor call per network (`net=`); "
+        "paths: one life per configuration source serves the polling path and re-observation requests for the same events - transfers "
+        "with levels around every small integer the shipped files contain and around 205, each in blocks whose age lies in every gap "
+        "between two candidate floors (>= 12 min clear) and beyond all of them; pgf: see C09")
